@@ -46,6 +46,9 @@ pub struct Ctl {
     pub procs: BTreeMap<String, Proc>,
     pub shim: String,
     pub copia: String,
+    /// run every spawned process as pid 1 of its own pid namespace (`unshare --pid --fork --kill-child`): what servers
+    /// in separate containers sharing one hub directory look like - equal pids in different processes
+    pub pidns: bool,
 }
 
 impl Ctl {
@@ -79,12 +82,18 @@ impl Ctl {
                 });
             }
         });
-        Ctl { dir: dir.into(), sock, rx, tx, procs: BTreeMap::new(), shim: shim.into(), copia: copia.into() }
+        Ctl { dir: dir.into(), sock, rx, tx, procs: BTreeMap::new(), shim: shim.into(), copia: copia.into(), pidns: false }
     }
 
     /// Spawn `copia <args>` under the shim; returns once it sits at its first gate (or has exited).
     pub fn spawn(&mut self, id: &str, args: &[&str], watch: &str, gate_stdin: bool, extra_env: &[(&str, &str)]) {
-        let mut c = Command::new(&self.copia);
+        let mut c = if self.pidns {
+            let mut c = Command::new("unshare");
+            c.args(["--pid", "--fork", "--kill-child", &self.copia]).env("VPSCHED_ONLY", "copia");
+            c
+        } else {
+            Command::new(&self.copia)
+        };
         c.args(args)
             .env("LD_PRELOAD", &self.shim)
             .env("VPSCHED_SOCK", &self.sock)
